@@ -894,13 +894,17 @@ func contextAfterText(c context, s []byte) (context, int) {
 		scriptType: c.scriptType,
 		linkRel:    c.linkRel,
 	}
+	// A "/" inside a tag separates attributes like white space does: for a browser
+	// `<link /rel="stylesheet">` and `<link x/rel="stylesheet">` have a rel attribute,
+	// although c.attr.name is "/rel" and "x/rel".
+	attrName := c.attr.name[strings.LastIndexByte(c.attr.name, '/')+1:]
 	// Save the script element's type attribute value if we are parsing it for the first time.
-	if c.state == stateAttr && c.element.name == "script" && c.attr.name == "type" {
+	if c.state == stateAttr && c.element.name == "script" && attrName == "type" {
 		ret.scriptType = strings.ToLower(string(s[:i]))
 	}
 	// Save the link element's rel attribute value if we are parsing it for the first time.
 	// Only the first rel attribute of the element counts, as in a browser.
-	if c.state == stateAttr && c.element.name == "link" && c.attr.name == "rel" && c.linkRel == "" {
+	if c.state == stateAttr && c.element.name == "link" && attrName == "rel" && c.linkRel == "" {
 		if c.attr.dynamic || c.attr.ambiguousValue {
 			// The value is not known at parse time.
 			ret.linkRel = unknownLinkRel
